@@ -30,6 +30,8 @@ def gen_refs_wide(rng, tier):
         if rng.random() < 0.2:
             steps += c05.cursor_steps(["highlight"], ws, rng, both_ends=False)
         out.append(c05.make_case([(fn, text) for fn, text, _ in ws], steps))
+    for ws in c05.chain_workspaces(rng, tier, 12):       # call-chain statements with callbacks (seeded C05-5)
+        out.append(c05.make_case([(fn, text) for fn, text, _ in ws], c05.cursor_steps(["refs"], ws, rng)))
     return out
 
 
